@@ -70,17 +70,19 @@ WellFormed(units, l) == TokensWellFormed(Tokens(NFKD(units)), l)
 \* Canonical spelling: the NFKD form is non-empty, whitespace-free tokens
 \* separated by exactly one U+0020
 CanonicalToks(toks) == \A i \in 1..Len(toks) : toks[i] # <<>> /\ \A k \in 1..Len(toks[i]) : ~IsWhiteSpace(toks[i][k])
-CanonicalForm(units) == CanonicalToks(SplitOnSpace(NFKD(units)))
+\* the tokens of a canonical spelling (the empty text has none)
+CanonTokens(units) == LET n == NFKD(units) IN IF n = <<>> THEN <<>> ELSE SplitOnSpace(n)
+CanonicalForm(units) == CanonicalToks(CanonTokens(units))
 \* C02: what must be accepted
-Canonical(units, l) == LET toks == SplitOnSpace(NFKD(units)) IN CanonicalToks(toks) /\ TokensWellFormed(toks, l)
+Canonical(units, l) == LET toks == CanonTokens(units) IN CanonicalToks(toks) /\ TokensWellFormed(toks, l)
 
 \* C15: the classes of defect of a sentence in canonical form
 Defects(units, l) ==
-    LET toks == SplitOnSpace(NFKD(units))  n == Len(toks) IN
+    LET toks == CanonTokens(units)  n == Len(toks) IN
     (IF WordCountOK(n) THEN {} ELSE {"count"})
     \cup (IF IsSupported(l) /\ AllKnown(toks, l) THEN {} ELSE {"word"})
     \cup (IF WordCountOK(n) /\ IsSupported(l) /\ AllKnown(toks, l) /\ ~ChecksumOK(toks, l) THEN {"checksum"} ELSE {})
-UnknownTokens(units, l) == LET toks == SplitOnSpace(NFKD(units)) IN
+UnknownTokens(units, l) == LET toks == CanonTokens(units) IN
     {toks[i] : i \in {j \in 1..Len(toks) : ~IsSupported(l) \/ WordIndex(l, toks[j]) < 0}}
 
 ------------------------------------------------------------------------------
